@@ -58,12 +58,17 @@ class _Sut:
 # ------------------------------------------------------------ system drawing
 
 
+DEEP = [False]  # set per run: one run in two hundred uses larger bounds (see _run)
+
+
 def draw_system(ch, rng):
     kind = KINDS[ch.weighted([3, 3, 2, 2, 3], "kind")]
     order = 1 - ch.draw(2, "order0")  # 0 draw -> order 1
     nrb = ch.weighted([3, 2, 1], "nrb")
     nel = ch.weighted([1, 3, 3, 2, 1], "nel")
     nrf = ch.weighted([4, 2, 1], "nrf")
+    if DEEP[0]:
+        nrb, nel, nrf = ch.draw(4, "nrb_deep"), 2 + ch.draw(8, "nel_deep"), ch.draw(4, "nrf_deep")
     cdf_small = False
     if kind in ("cdf_flag", "SolveCDF") and nel < 2:
         # off-diagonal damping needs two elastic modes; in one such draw out of four the system
@@ -247,6 +252,8 @@ def make_session(M, ch, rng, sysd, mats_shared, sid, st, reuse=None, pre_use=Fal
     s.life = 0 if reuse is None else reuse.life + 1
     # 1..12 steps, occasionally a long session (anything keyed on a step count, a wrap-around, a buffer size)
     nt = (list(range(1, 13)) + [20, 33, 64])[ch.weighted([2, 2, 4, 6, 6, 6, 6, 4, 4, 2, 2, 2, 2, 1, 1], "nt")]
+    if DEEP[0]:
+        nt = 30 + ch.draw(90, "nt_deep")
     if nt > 12:
         st.fault("long_session")
     s.nt = nt
@@ -583,6 +590,11 @@ def _run(M, ch, tr, st, rng):
     w_addon = [2, 0, 4][ch.draw(3, "w_addon")]
     w_f2x = [1, 0, 2][ch.draw(3, "w_f2x")]
     nops = [12, 4, 25, 40, 90][ch.weighted([8, 4, 6, 2, 1], "nops")]
+    # one run in two hundred is a "deep" run: up to 17 DOF, 30-120 steps, 100-200 drawn sends
+    DEEP[0] = ch.flip(1, 200, "deep_run")
+    if DEEP[0]:
+        nops = 100 + ch.draw(100, "nops_deep")
+        st.fault("deep_run")
 
     same_inst = ch.flip(1, 3, "same_instance_calls")
     reuse_inst = ch.flip(1, 3, "reuse_instance")
@@ -719,5 +731,5 @@ EXPECTED_FAULTS = [
     "redo_same_force", "redo_new_force", "jump_back_1", "jump_back_far", "addon", "addon_then_advance", "addon_then_redo",
     "redo_then_advance", "addon_order0", "buffer_reuse", "closed_loop_force", "two_sessions_interleaved", "nt_1", "rf_only",
     "rb_only", "static_ic", "complex_coefficients", "f2x_probe", "addon_twice", "instance_reused", "same_instance_tsolve",
-    "same_instance_fsolve", "long_session", "force_int", "resend_stored_force",
+    "same_instance_fsolve", "long_session", "force_int", "resend_stored_force", "deep_run",
 ]
